@@ -109,6 +109,53 @@ def run(prog, chk):
                    m, '' if pop else ' (no such loop found; it is only written in ' + ', '.join(sorted({f.short for f, _ in writers[m]})) + ')'),
                key='table:' + m)
 
+    # ---- R10.1b: every site that stores an entry of a record-valued table fills the same fields ---------------------------------
+    # (the pre-declaration pass and the visit of the declaration itself both write m_functionInfo[name]: an entry that the
+    # pre-declaration leaves half filled — e.g. without the return type — makes a call checked before the declaration was visited
+    # behave differently from one checked after it)
+    nrec = 0
+    for m, t in fields.items():
+        if not t.startswith('std::unordered_map<std::string'):
+            continue
+        vt = t.split(',', 1)[1].rsplit('>', 1)[0].strip() if ',' in t else ''
+        rec = prog.facts.records.get(vt) or next((r_ for n_, r_ in prog.facts.records.items() if n_.endswith('::' + vt.split('::')[-1]) and vt), None)
+        if not rec or len(rec.get('fields', [])) < 2:
+            continue
+        fnames = [x['name'] for x in rec['fields']]
+        sites = []
+        for f in amethods:
+            if not f.body:
+                continue
+            for n in SX.walk(f.body, into_lambdas=False):
+                w = SX.write_target(n)
+                if not (w and w[2] == '=' and SX.is_node(SX.strip(w[0])) and SX.strip(w[0]).get('k') == 'index' and SX.is_this_member(SX.strip(SX.strip(w[0])['base']), m)):
+                    continue
+                v = SX.strip(w[1])
+                if not (SX.is_node(v) and v.get('k') == 'ref' and v.get('kind') == 'var'):
+                    continue
+                filled = set()
+                for x in SX.walk(f.body, into_lambdas=False):
+                    w2 = SX.write_target(x)
+                    tgt = SX.strip(w2[0]) if w2 else (SX.strip(x.get('obj')) if x.get('k') == 'mcall' and not x.get('constm', True) else None)
+                    while SX.is_node(tgt) and tgt.get('k') in ('index',):
+                        tgt = SX.strip(tgt.get('base'))
+                    if SX.is_node(tgt) and tgt.get('k') == 'member' and SX.strip(tgt.get('base')).get('id') == v.get('id') and tgt['name'] in fnames:
+                        filled.add(tgt['name'])
+                decl = [d for d in SX.walk(f.body, into_lambdas=False) if d['k'] == 'var' and d.get('id') == v.get('id')]
+                if decl and SX.is_node(decl[0].get('init')) and SX.strip(decl[0]['init']).get('k') == 'initlist':
+                    il = SX.strip(decl[0]['init'])
+                    filled |= set((il.get('fields') or fnames)[:len(il.get('items', []))])
+                sites.append((f, n, filled))
+        if len(sites) < 2:
+            continue
+        nrec += 1
+        union = set().union(*[fl for _, _, fl in sites])
+        for f, n, filled in sites:
+            chk.ob('R10.1', f, n.get('ln', f.ln), filled == union,
+                   '%s stores an entry of %s with fields %s; every site that stores such an entry fills the same fields (%s) — otherwise what a use sees depends on whether the '
+                   'declaration was visited before it' % (_fk(f), m, sorted(filled), sorted(union)), key='table-entry-fields:%s:%s' % (m, _fk(f)))
+    chk.count('record-valued analyser tables with several storing sites', nrec, 1)
+
     # ---- R10.2 ---------------------------------------------------------------------------------
     evfns = [f for f in R.ev_methods() if f.body]
     n2 = 0
@@ -534,3 +581,9 @@ def _callee_base_reads(prog, body, layout, evkeys, depth=0, seen=None):
             if depth < 3 and not out:
                 out += _callee_base_reads(prog, t.body, layout, evkeys, depth + 1, seen)
     return out
+
+
+def _fk(f):
+    if f.short == 'visit' and f.params:
+        return 'visit(%s)' % f.params[0]['type'].split('::')[-1].replace(' &', '')
+    return f.short
